@@ -178,7 +178,9 @@ def run_shard(spec):
             #  which by itself lets a queued caller transmit early; C10 has a controlled 'queued caller cancelled' workload)
             ka = rnd.random() < 0.5
             cancel = None
-            run_case(scenario(transport, ka, T, R, script, starts, close_at, cancel), part)
+            sc_ = scenario(transport, ka, T, R, script, starts, close_at, cancel)
+            sc_["hops"] = rnd.choice((0, 0, 1, 2, 3))
+            run_case(sc_, part)
     return part
 
 
